@@ -158,6 +158,24 @@ func bindRequestFor(task *pod_info.PodInfo) *schedulingv1alpha2.BindRequest {
 	}
 }
 
+// cleanup empties the node again (pods, reservation pods, config maps) so that the next bind does not pay for
+// SyncForNode re-listing every earlier pod; the property is per pod.
+func (e *binderEnv) cleanup() {
+	ctx := context.Background()
+	pods := &v1.PodList{}
+	if err := e.cl.List(ctx, pods); err == nil {
+		for i := range pods.Items {
+			_ = e.cl.Delete(ctx, &pods.Items[i])
+		}
+	}
+	cms := &v1.ConfigMapList{}
+	if err := e.cl.List(ctx, cms); err == nil {
+		for i := range cms.Items {
+			_ = e.cl.Delete(ctx, &cms.Items[i])
+		}
+	}
+}
+
 // bind stores the (mutated, admitted) pod, runs the real Binder.Bind with br, and reads back what was materialised.
 func (e *binderEnv) bind(mutated *v1.Pod, br *schedulingv1alpha2.BindRequest, alreadyStored bool) (view BindView) {
 	ctx := context.Background()
